@@ -17,12 +17,7 @@ open Lean PV PorepyVerif.C07
 structure St where
   eqs : List EqLayout := []
   vars : List Var := []
-  J : Mat := []
-  r : Vec := []
-  /-- `_Schur_complement` (outer `none`: never assembled; inner `none`: last block was singular) -/
-  stored : Option (Option Stored) := none
-  /-- reduced system of the last assembly (for `solve`) -/
-  last : Option (Mat × Vec) := none
+  m : MState := MState.init
 
 def jPair {α β : Type} (f : Json → R α) (g : Json → R β) (j : Json) : R (α × β) :=
   match j with
@@ -45,6 +40,11 @@ def indicesAsCoded (req : EqReq) (eqs : List EqLayout) : List (Nat × List Nat) 
   | some k => [(k, List.range' 0 (eqSize (eqs.getD k [])))]
   | none => eqIndices req 0 0 eqs
 
+def errName : SplitErr → String
+  | .valueError => "ValueError"
+  | .assertionError => "AssertionError"
+
+/-- every op goes through the model's `mstep` (the function the history theorem is about) -/
 def doSplit (st : St) (j : Json) : R (St × Json) := do
   let form ← fStr j "form"
   let req : EqReq ←
@@ -52,47 +52,34 @@ def doSplit (st : St) (j : Json) : R (St × Json) := do
     else EqReq.restricted <$> (field j "eqs" >>= jList (jPair jNat (jList jNat)))
   let items ← field j "vars" >>= jList (jPair jNat (jOpt (jList jNat)))
   let items : List VarItem := items.map (fun p => ⟨p.1, p.2⟩)
-  -- _parse_equations
-  if !parseOk st.eqs req then return (st, err "ValueError")
-  -- _gridbased_equation_complement
-  if !complementOk st.eqs req then return (st, err "ValueError")
-  let blocks := varBlocks 0 0 st.vars
-  let active := parseVars blocks items
-  let pcols := primCols active
-  if numPrimaryEqs req 0 st.eqs == 0 then return (st, err "AssertionError")
-  if pcols.length == 0 then return (st, err "AssertionError")
-  let scols := secCols blocks active
-  if scols.length == 0 then return (st, err "AssertionError")
-  let prows := primRows req 0 0 st.eqs
-  let srows := secRows req st.eqs
-  -- sps.vstack of an empty list of secondary blocks
-  if numSecBlocks req 0 st.eqs == 0 then return (st, err "ValueError")
-  if srows.length != scols.length then return (st, err "AssertionError")
-  match assembleSplit st.J st.r (totalDofs st.vars) prows srows pcols scols with
-  | none => return ({ st with stored := some none, last := none }, obj [("singular", .bool true)])
-  | some sp =>
-    let out := obj [("S", ofMat sp.S), ("rhs", ofRats sp.rhs), ("bs", ofRats sp.stored.bs),
-      ("Asp", ofMat sp.stored.Asp), ("pcols", ofNats pcols), ("scols", ofNats scols),
+  -- the `state` argument: the call linearises at another point than the stored iterate
+  let sys : Option (Mat × Vec) ← match j.getObjVal? "J" with
+    | .ok _ => do pure (some (← fRatss j "J", ← fRats j "r"))
+    | .error _ => pure none
+  let (m', out) := mstep st.eqs st.vars st.m (.split req items sys)
+  match out, m'.stored, m'.last with
+  | .splitErr e, _, _ => return (st, err (errName e))
+  | .singular, _, _ => return ({ st with m := m' }, obj [("singular", .bool true)])
+  | .assembled, some (some s), some (S, rhs) =>
+    let o := obj [("S", ofMat S), ("rhs", ofRats rhs), ("bs", ofRats s.bs),
+      ("Asp", ofMat s.Asp), ("pcols", ofNats s.pcols), ("scols", ofNats s.scols),
       ("eqidx", ofList (fun p => Json.arr #[ofNat p.1, ofNats p.2]) (eqIndices req 0 0 st.eqs)),
       ("eqidx_asis", ofList (fun p => Json.arr #[ofNat p.1, ofNats p.2]) (indicesAsCoded req st.eqs))]
-    return ({ st with stored := some (some sp.stored), last := some (sp.S, sp.rhs) }, out)
+    return ({ st with m := m' }, o)
+  | _, _, _ => throw "unexpected model output"
+
+def ofOut : MOut → R Json
+  | .valueError => pure (err "ValueError")
+  | .skip => pure (obj [("skip", .str "no usable reduced system / stored data")])
+  | .vec X => pure (obj [("X", ofRats X)])
+  | _ => throw "unexpected model output"
 
 def doExpand (st : St) (j : Json) : R (St × Json) := do
-  match st.stored with
-  | none => return (st, err "ValueError")
-  | some none => return (st, obj [("skip", .str "singular")])
-  | some (some s) =>
-    if (fieldD j "solve" (.bool false)) == .bool true then
-      match st.last with
-      | none => return (st, obj [("skip", .str "no reduced system")])
-      | some (S, rhs) =>
-        match solveReduced S rhs s.pcols.length with
-        | none => return (st, obj [("skip", .str "reduced system not square or singular")])
-        | some xp => return (st, obj [("X", ofRats (expandStored s xp))])
-    else
-      let x ← fRats j "x"
-      if x.length != s.pcols.length then return (st, err "ValueError")
-      return (st, obj [("X", ofRats (expandStored s x))])
+  if (fieldD j "solve" (.bool false)) == .bool true then
+    return (st, ← ofOut (mstep st.eqs st.vars st.m .expandSolve).2)
+  else
+    let x ← fRats j "x"
+    return (st, ← ofOut (mstep st.eqs st.vars st.m (.expand x)).2)
 
 def step (st : St) (j : Json) : R (St × Json) := do
   let op ← fStr j "op"
@@ -104,7 +91,7 @@ def step (st : St) (j : Json) : R (St × Json) := do
   | "state" =>
     let J ← fRatss j "J"
     let r ← fRats j "r"
-    pure ({ st with J := J, r := r }, Json.str "ok")
+    pure ({ st with m := (mstep st.eqs st.vars st.m (.setSystem J r)).1 }, Json.str "ok")
   | "split" => doSplit st j
   | "expand" => doExpand st j
   | _ => throw s!"unknown op {op}"
